@@ -201,6 +201,9 @@ func checkC19(c *chk.Ctx) {
 					if rc.Rule == "gt_lt" || rc.Rule == "gte_lte" {
 						p["lt"], p["lte"] = rel(cmpF(v, hi)), rel(cmpF(v, hi))
 					}
+					if rc.Rule == "gte_lte_eq" {
+						p["lt"], p["lte"] = rel(cmpF(v, b)), rel(cmpF(v, b))
+					}
 					p["inSet"] = v == b || v == hi
 					p["eqConst"] = v == b
 					fc.probes = append(fc.probes, probe{inst: json.Number(fs(v)), pos: p, note: fs(v)})
@@ -225,6 +228,9 @@ func checkC19(c *chk.Ctx) {
 					}
 					if rc.Rule == "gt_lt" || rc.Rule == "gte_lte" {
 						p["lt"], p["lte"] = rel(v.Cmp(hi)), rel(v.Cmp(hi))
+					}
+					if rc.Rule == "gte_lte_eq" {
+						p["lt"], p["lte"] = rel(v.Cmp(b)), rel(v.Cmp(b))
 					}
 					p["inSet"] = v.Cmp(b) == 0 || v.Cmp(hi) == 0
 					p["eqConst"] = v.Cmp(b) == 0
@@ -517,6 +523,8 @@ func setRules(f *abs.Field, rule, b, hi, _ string) {
 		f.Rules.Gt, f.Rules.Lt = b, hi
 	case "gte_lte":
 		f.Rules.Gte, f.Rules.Lte = b, hi
+	case "gte_lte_eq":
+		f.Rules.Gte, f.Rules.Lte = b, b // a closed interval pinning exactly one value
 	case "in":
 		f.Rules.In = []string{b, hi}
 	case "const":
